@@ -63,23 +63,23 @@ def whereSwap : List WUnit → List WUnit
     else u :: us
 
 /-- value of `cur <AND|OR> u₁ <AND|OR> u₂ …` under SQL precedence, `cur` = value of the AND-run being read -/
-def evalRunsAux (k : Nat) : Bool → List WUnit → Bool
+def evalUnitsAux (k : Nat) : Bool → List WUnit → Bool
   | cur, [] => cur
-  | cur, u :: us => if u.isOr then cur || evalRunsAux k (u.sat k) us else evalRunsAux k (cur && u.sat k) us
+  | cur, u :: us => if u.isOr then cur || evalUnitsAux k (u.sat k) us else evalUnitsAux k (cur && u.sat k) us
 
 /-- `buildExprs(exprs, " AND ")` read by the database: member 0 opens the first run (its own connector is
     not printed); no WHERE at all = every row. -/
-def evalRuns (us : List WUnit) (k : Nat) : Bool :=
+def evalUnits (us : List WUnit) (k : Nat) : Bool :=
   match us with
   | [] => true
-  | u :: us => evalRunsAux k (u.sat k) us
+  | u :: us => evalUnitsAux k (u.sat k) us
 
 /-- the member `tx.Clauses(clause.Gt{pk, last})` appends -/
 def cursorUnit (g : Nat) : WUnit := { isOr := false, sat := fun k => g < k }
 
 /-- what the database evaluates for the chain's WHERE plus the optional key cursor -/
 def whereSat (us : List WUnit) (gt : Option Nat) (k : Nat) : Bool :=
-  evalRuns (whereSwap (match gt with | none => us | some g => us ++ [cursorUnit g])) k
+  evalUnits (whereSwap (match gt with | none => us | some g => us ++ [cursorUnit g])) k
 
 /-! ### ORDER BY (clause/order_by.go: columns in call order, later calls appended) -/
 
@@ -87,6 +87,8 @@ def whereSat (us : List WUnit) (gt : Option Nat) (k : Nat) : Bool :=
 structure OrdCol where
   key  : Nat → Int
   desc : Bool
+  /-- column identity (0 = primary key); only printed by the driver for the query-shape correspondence -/
+  tag  : Nat := 0
 
 /-- the primary-key column, ascending / descending -/
 def pkAsc : OrdCol := { key := fun k => (k : Int), desc := false }
